@@ -33,11 +33,16 @@ def shout(x):
 HOST_GLOBALS = {'GREETING': 'hello', 'shout': shout, 'LIMIT': 10, '__name__': 'c16_host'}
 GOOD = ['name', 'count', 'count + 1', 'person', 'person.name', 'person.age * 2', 'items', 'items[0]', 'len(items)',
         "data['k']", 'GREETING', 'shout(name)', 'LIMIT - count', 'name.upper()', '(count, name)', 'None', 'flag',
-        'count > 2', "'lit'", 'name + GREETING', '3.5', 'items[-1]', 'str(person)', 'count if flag else 0']
+        'count > 2', "'lit'", 'name + GREETING', '3.5', 'items[-1]', 'str(person)', 'count if flag else 0',
+        # a structure of more nodes than one action may collect: the fields after it find the variable budget used up
+        'big', 'big']
 BAD = ['nope', '1/0', 'person.nope', 'items[99]', "data['missing']", 'count +', 'shout()', 'int(name)', 'uuid',
        'deep', 'len(count)']
 LITERALS = ['', ' ', 'value=', ' and ', 'x', '100% done ', 'café ', '\U0001F600', ' -> ', '%s %d ', 'a.b[c] ',
             'line1\\n', '"quoted" ', "it's ", '$', '#tag ']
+
+
+BIG = [[[[i * 1000 + j * 100 + k * 10 + m for m in range(10)] for k in range(10)] for j in range(10)] for i in range(3)]
 
 
 def reference_render(template, frame):
@@ -142,6 +147,9 @@ class C16(Prop):
                     out.cls('failing_field')
         if nfields >= 2:
             out.cls('multi_field')
+        fl = [p[1] for p in recipe['parts'] if p[0] == 'field']
+        if 'big' in fl and fl.index('big') < len(fl) - 1 or (recipe['collect'] and fl):
+            out.cls('field_after_budget_used_up')
         has_lit = any(p[0] != 'field' and (p[0] != 'lit' or p[1]) for p in recipe['parts'])
         out.nontrivial = nfields >= 1 and has_lit
         args = {'fire_count': recipe['fire_count'], 'fire_period': '0', 'log_msg': template}
@@ -176,7 +184,8 @@ class C16(Prop):
         for hit in range(3):
             lab.CLOCK.advance_ms(1)
             local_values = {'name': 'n%d' % hit, 'count': recipe['count'] + hit, 'person': Person(),
-                            'items': [hit, 'two', 3.0], 'data': {'k': 'v%d' % hit}, 'flag': recipe['flag']}
+                            'items': [hit, 'two', 3.0], 'data': {'k': 'v%d' % hit}, 'flag': recipe['flag'],
+                            'big': BIG}
             gen = lab.frame_at(PATH, LINE, 'target', local_values, globs=HOST_GLOBALS)
             if raw_mode and not WELL_FORMED.match(template):
                 # arbitrary text the grammar does not cover: only "no exception escapes, at most one message"
